@@ -50,7 +50,7 @@ CHECKS["C10"] = dict(
     engine="E3-vgomp-schedules",
     technique="stateless deviation-bounded schedule exploration (CHESS-style) of the real C/OpenMP code under a controllable GOMP runtime; TSan race candidates promoted to scheduling points",
     text="Every Python-reachable OpenMP entry point of the C back end is closed with a small driver and run on C code compiled from the working tree against vgomp, a GOMP-ABI runtime in which exactly one team member runs at a time: every schedule with at most d deviations from the canonical schedule (region start, barriers, each dynamic chunk hand-out, single, critical, thread exit; d=1 always to completion; in the thorough tier d=2 under a 60 s budget per body, completion reported per body; teams 2 and 3) is executed and its outputs compared bitwise with the team-of-one run, with deadlock and work-sharing invariants checked by the runtime; team sizes 1..16 under five canonical policies incl. end-to-end nr_rks/nr_uks; real libgomp at several thread counts x repetitions; and a separate free-running ThreadSanitizer pass (members start together, chunks handed out fairly, work-share bookkeeping invisible to the detector) whose reports in repository code become extra scheduling points, one before and one after each racing access, explored the same way on the attributed body and on a priority list of bodies that execute the racing code, pruned two-atom grids first (a race is a violation iff some explored schedule changes an output).",
-    note="Real-runtime pass also with OMP_THREAD_LIMIT below OMP_NUM_THREADS (team smaller than omp_get_max_threads()); one failure per configuration there (a race surfaces in different bodies from run to run). Fractional-Laplacian callbacks run inside PySCF's own parallel loop and are covered by that pass only (schedules sampled, not enumerated). Synchronisation-granularity interleavings plus racing accesses, sequential consistency; nr_numint.c, pbc_tools.c and GPAW-only/caller-less routines are not driven (the evidence lists every OpenMP region function and whether it was entered).",
+    note="Hand-partitioned reductions (contract_grad_terms_parallel) are driven at array lengths below, at and above every team size (1..130 sample in quick, every length 1..140 in thorough). Real-runtime pass also with OMP_THREAD_LIMIT below OMP_NUM_THREADS (team smaller than omp_get_max_threads()); one failure per configuration there (a race surfaces in different bodies from run to run). Fractional-Laplacian callbacks run inside PySCF's own parallel loop and are covered by that pass only (schedules sampled, not enumerated). Synchronisation-granularity interleavings plus racing accesses, sequential consistency; nr_numint.c, pbc_tools.c and GPAW-only/caller-less routines are not driven (the evidence lists every OpenMP region function and whether it was entered).",
     design="5/C10, 3.4, appendix A",
 )
 CHECKS["C14"] = dict(
